@@ -18,6 +18,7 @@ RULE = (
     "absent from IUSE, blocker ignored). A class is (operator, first failing constraint | match | match decided by a "
     "default | glob string-prefix-but-not-component-prefix); distinct_nontrivial counts classes observed."
 )
+TIME_CAP = {"thorough": 1500}
 ASSUMPTIONS = [
     "Excl: (atom, package) pairs where a USE dependency without (+)/(-) names a flag absent from the package's IUSE and key, version, slot, sub-slot and repository all hold (PMS calls this an error; counted under class 'excluded-...', not judged)",
     "Excl: '=v*' whose written version ends in a letter or a number-less suffix, or spells a revision '-r0'; versions with leading-zero components (component-prefix vs. PMS wording arguable there)",
@@ -277,6 +278,7 @@ BOUNDS = {
     "quick": "35 operator/version heads (none; < <= = ~ >= > =* x 1, 1.1, 1-r1, 1_p1, 10) x 3 blocker forms x 6 slot forms x 2 repo forms x 21 "
     "USE-dep forms (+ 8 key-mismatch heads) = 28 476 atoms, each against 1 134 packages (a/p: 14 versions x 2 slots x 2 sub-slots x "
     "2 repos x 9 IUSE/USE states; a/q: 14 versions x 9 states) = 32.3 M matches",
-    "thorough": "59 heads (9 written versions) x 3 blockers x 8 slot forms x 3 repo forms x 48 USE-dep forms (all 36 x-token x y-token "
-    "pairs) (+ 20 key-mismatch heads) = ~227 k atoms, each against 2 592 packages (18 versions; IUSE also spelled '+flag') = ~590 M matches",
+    "thorough": "61 heads (9 written versions) x 3 blockers x 8 slot forms x 3 repo forms x 48 USE-dep forms (all 36 x-token x y-token "
+    "pairs) (+ 20 key-mismatch heads) = 233 856 atoms, each against 2 592 packages (18 versions; IUSE also spelled '+flag') = 606 M matches; "
+    "time cap 1500 s",
 }
